@@ -86,6 +86,15 @@ def isTopKB [DecidableEq φ] [DecidableEq α] (le : α → α → Bool) (k : Nat
     | none => false
     | some rest => res.all fun x => rest.all fun y => le y.reward x.reward
 
+/-! ## results → trials -/
+
+/-- `best_candidates_to_trials`: `sorted_ind = argsort(-rewards)` (stable: equal rewards in row order);
+trial `i` is built from row `sorted_ind[i]` — the continuous part, the categorical part AND the reward of
+that one row.  A row holds `n_parallel` candidates, each becoming one trial (with the row's reward).
+`decode` stands for `converter.to_parameters`. -/
+def toTrials {π ψ : Type} (le : α → α → Bool) (decode : ψ → π) (res : List (Entry (List ψ) α)) : List (π × α) :=
+  (sortDesc le res).flatMap fun e => e.feat.map fun f => (decode f, e.reward)
+
 /-! ## features, layouts, masks -/
 
 /-- one candidate: continuous features (carrier `ρ`) and categorical features (indices) -/
